@@ -176,7 +176,23 @@ def run(F, R, tier):
     for f_ in [F.body_of(FWD)] + descendants(F, (F.body_of(FWD) or {"id": FWD})["id"]):
         mapper = mapper or closure_arg(f_, "BodyExt::map_frame")
     data_cl = closure_arg(mapper, "Iterator::map")
-    if not mapper or not data_cl:
+    if mapper and not data_cl:
+        # no per-byte step at all: the data frame's bytes are handed on as they are
+        BM = mir.Body(mapper, F)
+        R.touched(mapper["id"])
+        fd = BM.calls_named("Frame::data")
+        okf = False
+        if len(fd) == 1:
+            org = BM.origins(fd[0][3]["args"][0])
+            okf = any(o[0] == "call" and q.ends(o[1], "Frame::into_data") for o in org) and \
+                all(o[0] == "call" and q.ends(o[1], "Frame::into_data", "Bytes::new") for o in org)
+        mc = [q.base_name(r or w) for bi, w, r, t in BM.calls]
+        badm = [c for c in mc if not any(q.ends(c, a) for a in MAPPER_ALLOWED)]
+        R.check(okf and not badm, "C14.R2", "C14.R2:%s:data-flow" % mapper["id"], "-",
+                "Frame::data(..) receives the bytes of frame.into_data() unchanged (or an empty Bytes for a non-data frame - observation)",
+                "frame mapper: Frame::data receives %s; other operations %s" % (sorted(map(str, BM.origins(fd[0][3]["args"][0]))) if fd else "nothing", badm))
+        R.observe("a non-data frame (trailers) is replaced by an empty data frame by the mapper")
+    elif not mapper or not data_cl:
         R.fail("C14.R2", "C14.R2:anchor-missing:frame-mapper", "-", "anchor-missing=%s::{closure#0}::{closure#0}[::{closure#0}]" % FWD)
     else:
         R.touched(mapper["id"], data_cl["id"])
